@@ -1,12 +1,13 @@
 (* Properties_C09 -- lookup and membership agree with iteration and the helpers.
    Statements only. *)
 From Coq Require Import ZArith NArith List Bool.
-From Verif Require Import Lanes Common Values Equality Api EqBasics.
+From Verif Require Import Lanes Common Values Equality Api EqBasics EqEquiv LookupIndex.
 Import ListNotations.
 
 Section C09.
 Variable c : cfg.
 Variable xe : Z -> option (Z -> Z -> bool).
+Variable xh : Z -> option (Z -> Z).
 
 (* lookup returns entry r exactly when key r is the FIRST key equal to the probe *)
 Theorem C09_lookup_first : forall ks vs k s e mm h r,
@@ -14,6 +15,17 @@ Theorem C09_lookup_first : forall ks vs k s e mm h r,
   exists pre x post, ks = pre ++ x :: post /\ r = List.length pre /\
                      equal c xe x k = true /\ forallb (fun y => negb (equal c xe y k)) pre = true.
 Proof. exact (map_lookup_first c xe). Qed.
+
+(* the first clause of the property, on the sequence fragment of the equality proofs (no sets / maps / external values
+   inside the keys; any cached hashes that are coherent): in a map whose keys are pairwise unequal -- what the reader's
+   duplicate check guarantees -- looking up ANY value equal to key i (an independently read copy, say) returns exactly
+   entry i and contains-key reports true *)
+Theorem C09_copy_of_key_finds_its_entry_partial : forall pre x post vs k s e mm h,
+  Forall (simple c) (pre ++ x :: post) -> Forall (coherent c xh) (pre ++ x :: post) -> coherent c xh k ->
+  dup_linear c xe (pre ++ x :: post) = false -> equal c xe x k = true ->
+  map_lookup c xe (Node (VMap (pre ++ x :: post) vs) s e mm h) k = Some (List.length pre) /\
+  map_contains c xe (Node (VMap (pre ++ x :: post) vs) s e mm h) k = true.
+Proof. exact (lookup_copy_finds_its_entry c xe xh). Qed.
 
 (* a probe equal to no key is not found, and contains-key agrees *)
 Theorem C09_absent : forall ks vs k s e mm h,
@@ -39,6 +51,7 @@ Theorem C09_helpers : forall m name ns key,
 Proof. exact (helpers_are_lookup c xe). Qed.
 End C09.
 
+Print Assumptions C09_copy_of_key_finds_its_entry_partial.
 Print Assumptions C09_lookup_first.
 Print Assumptions C09_absent.
 Print Assumptions C09_set_contains.
